@@ -49,15 +49,29 @@ def isFile : Option Node → Bool
 def missingErr (fs : FS) (p : Path) : Err :=
   if (List.range p.length).any (fun k => isFile (lookup fs (p.take k))) then .other else .notExist
 
-/-- `os.Stat`: follows symlinks at the final component (`fuel` bounds the chain: ELOOP). Returns the
-    resolved path and the (non-link) node. -/
+/-- The first proper prefix of `p` bound to a regular file or a symlink (what path resolution trips
+    over before it reaches the last component). -/
+def firstSpecial (fs : FS) (p : Path) : Option (Nat × Node) :=
+  (List.range p.length).findSome? (fun k =>
+    match lookup fs (p.take k) with
+    | some (.file b) => some (k, .file b)
+    | some (.link t) => some (k, .link t)
+    | _ => none)
+
+/-- `os.Stat`: resolves symlinks on the way and at the final component (`fuel` bounds the number of
+    links followed: ELOOP); a regular file on the way is ENOTDIR.  Returns the resolved path and the
+    (non-link) node. -/
 def stat : Nat → FS → Path → Except Err (Path × Node)
   | 0, _, _ => .error .other
   | f + 1, fs, p =>
-    match lookup fs p with
-    | none => .error (missingErr fs p)
-    | some (.link t) => stat f fs t
-    | some n => .ok (p, n)
+    match firstSpecial fs p with
+    | some (k, .link t) => stat f fs (t ++ p.drop k)
+    | some _ => .error .other
+    | none =>
+      match lookup fs p with
+      | none => .error .notExist
+      | some (.link t) => stat f fs t
+      | some n => .ok (p, n)
 
 def statFuel : Nat := 48
 
@@ -109,20 +123,28 @@ def remove (fs : FS) (p : Path) : Err × FS :=
 /-- `os.RemoveAll`. -/
 def removeAll (fs : FS) (p : Path) : Err × FS := (.ok, fs.filter (fun e => decide (¬ p <+: e.1)))
 
-/-- `os.Rename` (Go on Linux): refuses an existing directory as the new name, otherwise rename(2). -/
+/-- `os.Rename` (Go on Linux): Go refuses an existing directory as the new name (reporting the old
+    name's error first); then rename(2): both parent folders are resolved before the old name is looked up. -/
 def rename (fs : FS) (a b : Path) : Err × FS :=
-  match lookup fs b, lookup fs a with
-  | some .dir, none => (missingErr fs a, fs)
-  | some .dir, some _ => (.other, fs)
-  | _, none => (missingErr fs a, fs)
-  | nb, some na =>
-    if a = b then (.ok, fs)
-    else match parentErr fs b with
-      | .ok =>
-        if a <+: b then (.other, fs)
-        else if na = .dir ∧ nb.isSome then (.other, fs)
-        else (.ok, (erase fs b).map (rekey a b))
-      | e => (e, fs)
+  match lookup fs b with
+  | some .dir =>
+    (match lookup fs a with
+     | none => (missingErr fs a, fs)
+     | some _ => (.other, fs))
+  | nb =>
+    match parentErr fs a with
+    | .ok =>
+      (match parentErr fs b with
+       | .ok =>
+         (match lookup fs a with
+          | none => (.notExist, fs)
+          | some na =>
+            if a = b then (.ok, fs)
+            else if a <+: b then (.other, fs)
+            else if na = .dir ∧ nb.isSome then (.other, fs)
+            else (.ok, (erase fs b).map (rekey a b)))
+       | e => (e, fs))
+    | e => (e, fs)
 
 def symlink (fs : FS) (target p : Path) : Err × FS :=
   match lookup fs p with
@@ -280,19 +302,21 @@ theorem rename_frame (fs : FS) (a b x : Path) (ha : ¬ a <+: x) (hb : ¬ b <+: x
   have hne : b ≠ x := fun e => hb (e ▸ prefix_refl' b)
   unfold rename
   split
-  · rfl
-  · rfl
-  · rfl
+  · split <;> rfl
   · split
-    · rfl
     · split
       · split
         · rfl
         · split
           · rfl
-          · show lookup ((erase fs b).map (rekey a b)) x = lookup fs x
-            rw [lookup_rekey _ a b x ha hb, lookup_erase fs b x hne]
+          · split
+            · rfl
+            · split
+              · rfl
+              · show lookup ((erase fs b).map (rekey a b)) x = lookup fs x
+                rw [lookup_rekey _ a b x ha hb, lookup_erase fs b x hne]
       · rfl
+    · rfl
 
 theorem symlink_frame (fs : FS) (t p x : Path) (h : ¬ p <+: x) : lookup (symlink fs t p).2 x = lookup fs x := by
   have hne : p ≠ x := fun e => h (e ▸ prefix_refl' p)
@@ -479,18 +503,20 @@ theorem FSOp.linksInside (root : Path) (op : FSOp) (fs : FS) (h : LinksInside ro
   | rename a b =>
     simp only [FSOp.apply, FS.rename]
     split
-    · exact h
-    · exact h
-    · exact h
+    · split <;> exact h
     · split
-      · exact h
       · split
         · split
           · exact h
           · split
             · exact h
-            · exact linksInside_rekey root _ a b (linksInside_filter root fs _ h)
+            · split
+              · exact h
+              · split
+                · exact h
+                · exact linksInside_rekey root _ a b (linksInside_filter root fs _ h)
         · exact h
+      · exact h
   | remove p =>
     simp only [FSOp.apply, FS.remove]; split
     · exact h
